@@ -89,6 +89,8 @@ JunkAny   == [k |-> "junkany", adm |-> {}]     \* any number of any replies
 (*           nc: ok nonnum neg over negwrap resv rev                        *)
 (*   n       announced body length, content, vid, flag, rev, delta          *)
 (*   noreply, fault: none lfonly tokens extra badterm bodyshort             *)
+(*           tok4 (delete / incr with a last token that is not "noreply":   *)
+(*           accepted, answered)                                            *)
 (*   hl, tl, got  header length, total length, bytes delivered (got < tl:   *)
 (*           the stream was cut inside this command, then EOF)              *)
 (*                                                                         *)
@@ -222,7 +224,7 @@ Refusal(c, s, F, pats) ==
           Closing(<<One(pats)>>, s)}
 
 \* ---- set add replace cas append prepend ---------------------------------------------------------
-StoreOutcomes(c, s, F, last) ==
+StoreOutcomes(c, s, F, nextgot) ==
   LET kr     == c.keys[1]
       n      == c.n
       inc    == n > s.cf.bodyc
@@ -246,14 +248,15 @@ StoreOutcomes(c, s, F, last) ==
   ELSE IF huge THEN Refusal(c, s, F, {PErr})
   ELSE IF oom THEN Refusal(c, s, F, {PErr, Pt("NOT_STORED")})
   ELSE IF c.verb = "cas" /\ c.fault = "castokens" THEN {HeaderError(c, s, {PErr})}
-  ELSE IF Cut(c) THEN
+  ELSE IF c.got < c.hl + n + 2 /\ c.fault # "bodyshort" THEN
        \* token taken, body buffer allocated, EOF inside body or terminator: released, no reply
        {Ending(with(Plain(<<>>, s), sbuf("freed"), ""))}
-  ELSE IF c.fault = "badterm" THEN {with(Plain(<<One({PErr}), Junk>>, s), sbuf("freed"), "")}
+  ELSE IF c.fault = "badterm" THEN
+       LET o == with(Plain(<<One({PErr}), Junk>>, s), sbuf("freed"), "") IN {IF Cut(c) THEN Ending(o) ELSE o}
   ELSE IF c.fault = "bodyshort" THEN
-       \* the announced length exceeds the body by two: the CRLF is taken as data, the first two
-       \* bytes of the NEXT command as terminator; at the end of the stream the parser waits, then EOF
-       IF last THEN {Ending(with(Plain(<<>>, s), sbuf("freed"), ""))}
+       \* the announced length exceeds the body by two: the CRLF is taken as data, the first two bytes of the
+       \* NEXT command as terminator; while fewer than two more bytes arrive the parser waits, then EOF
+       IF Cut(c) \/ nextgot < 2 THEN {Ending(with(Plain(<<>>, s), sbuf("freed"), ""))}
        ELSE {with(Plain(<<One({PErr})>>, [s EXCEPT !.junk = TRUE]), sbuf("freed"), "")}
   ELSE IF c.verb = "append" THEN
        IF "F2" \in F
@@ -331,7 +334,7 @@ IncrOutcomes(c, s, F) ==
       tokd(o) == [o EXCEPT !.tok = TRUE]
       cnt(fate) == Buf("cnt", 0, FALSE, fate)
       gbuf(fate) == Buf("get", GetCap(s, kr.klen, x.len), GetInC(s, kr.klen, x.len), fate)
-      numref(v, ver) == [st |-> "live", vid |-> "num", flag |-> FlagIncr, ver |-> ver, len |-> Digits(v), isnum |-> TRUE, num |-> v]
+      numref(v, ver) == [st |-> "live", vid |-> "n" \o ToString(v), flag |-> FlagIncr, ver |-> ver, len |-> Digits(v), isnum |-> TRUE, num |-> v]
       \* F2: the SetData count taken by the parser is not given back
       f2(o) == IF "F2" \in F THEN [o EXCEPT !.bufs = <<cnt("leak")>>, !.sig = "F2"] ELSE [o EXCEPT !.bufs = <<cnt("freed")>>]
   IN
@@ -365,8 +368,11 @@ IncrOutcomes(c, s, F) ==
            THEN {[tokd(Plain(<<>>, s)) EXCEPT !.bufs = <<cnt("leak")>>, !.sig = "F10-resvflag", !.wild = TRUE],
                  [tokd(Plain(nr({PNumAny}), s)) EXCEPT !.bufs = <<cnt("leak")>>, !.sig = "F10-resvflag", !.wild = TRUE]}
            ELSE {tokd(Plain(nr({PNumAny, PErr}), [s EXCEPT !.ref[kr.name] = WildRef])), tokd(Closing(<<Opt({PErr})>>, s))}
-    [] OTHER -> \* wild
+    [] OTHER -> \* wild: what the store remembers of the key is not known here (e.g. a tombstone across a restart)
          {tokd(Plain(nr({PNumAny, PErr}), s))}
+         \cup (IF "F2-incr-get" \in F
+                THEN {[tokd(Plain(nr({PNumAny, PErr}), s)) EXCEPT !.bufs = <<cnt("wbuf"), gbuf("leak")>>, !.sig = "F2-incr-get", !.wild = TRUE]}
+                ELSE {})
 
 \* ---- decr (not implemented by the server) --------------------------------------------------------
 DecrOutcomes(c, s, F) ==
@@ -379,8 +385,8 @@ DecrOutcomes(c, s, F) ==
              [tokd(Plain(nr({PErr}), s)) EXCEPT !.bufs = cnt("freed")]}
 
 \* ---- dispatcher ------------------------------------------------------------------------------------
-\* last: c is the final command of the script (the client's EOF follows)
-Outcomes0(c, s, F, last) ==
+\* nextgot: bytes delivered of the command that follows c in the stream (0: the client's EOF follows c)
+Outcomes0(c, s, F, nextgot) ==
   IF s.junk THEN
        \* the previous command took this command's first two bytes: what is left is read as lines
        LET o == Plain(<<Junk>>, [s EXCEPT !.junk = FALSE]) IN {IF Cut(c) THEN Ending(o) ELSE o}
@@ -389,7 +395,7 @@ Outcomes0(c, s, F, last) ==
        \* a line without CR is rejected BEFORE Request.ReceiveTime is set: on a fresh connection it is the zero
        \* time, the reply is replaced by PROCESS_TIMEOUT, and that one is never written
        LET o == HeaderError(c, s, {PErr}) IN {[o EXCEPT !.exp = Tail(o.exp), !.sig = "F10-stale-recvtime"]}
-  ELSE IF c.verb \in StoreVerbs THEN StoreOutcomes(c, s, F, last)
+  ELSE IF c.verb \in StoreVerbs THEN StoreOutcomes(c, s, F, nextgot)
   ELSE IF c.fault = "lfonly" \/ c.verb = "empty" THEN {Plain(<<One({PErr})>>, s)}
   ELSE
   CASE c.verb \in {"get", "gets"} ->
@@ -408,15 +414,15 @@ Outcomes0(c, s, F, last) ==
     [] OTHER -> {Plain(<<One({PErr})>>, s)}        \* unknown verbs, garbage lines
 
 \* Request.ReceiveTime is set once a line ending in CRLF has been read
-Outcomes(c, s, F, last) ==
+Outcomes(c, s, F, nextgot) ==
   LET fr == s.fresh /\ ~s.junk /\ (c.fault = "lfonly" \/ c.got < c.hl) IN
-  {[o EXCEPT !.s.fresh = fr] : o \in Outcomes0(c, s, F, last)}
+  {[o EXCEPT !.s.fresh = fr] : o \in Outcomes0(c, s, F, nextgot)}
 
 \* does command c belong to the signature of finding f (used only to NAME a failure)?
 SigOf(c, s) ==
   LET kr == IF Len(c.keys) > 0 THEN c.keys[1] ELSE [cls |-> "", name |-> "", id |-> "", klen |-> 0]
       x  == IF kr.name \in KeyNames THEN s.ref[kr.name] ELSE NoRef
-  IN {f \in AllFindings : \E o \in Outcomes(c, s, AllFindings, FALSE) : o.sig = f}
+  IN {f \in AllFindings : \E o \in Outcomes(c, s, AllFindings, 99) : o.sig = f}
      \cup (IF c.verb \in StoreVerbs /\ c.got >= c.hl /\ ~(c.fault \in {"lfonly", "tokens", "extra"})
               /\ ((c.nf = "bytes" /\ c.nc = "neg") \/ c.n > s.cf.bodymax \/ (s.cf.oomgate /\ c.n > s.cf.bodybig /\ s.backlog))
             THEN {"F13"} ELSE {})
@@ -460,15 +466,17 @@ MatchItems(items, i, P, obs, relaxed) ==
   ELSE MatchItems(items, i + 1, MatchItem(items[i], P, obs, relaxed), obs, relaxed)
 
 \* configurations: [s, pos, closed, ended, lk]
-StepCfg(cf, c, last, obs, F, relaxed) ==
+StepCfg(cf, c, nextgot, obs, F, relaxed) ==
   IF cf.closed \/ cf.ended THEN {cf}
   ELSE UNION {{[s |-> o.s, pos |-> p, closed |-> o.closes, ended |-> o.ends, lk |-> AddLeak(cf.lk, o)] :
-                 p \in MatchItems(o.exp, 1, {cf.pos}, obs, relaxed)} : o \in Outcomes(c, cf.s, F, last)}
+                 p \in MatchItems(o.exp, 1, {cf.pos}, obs, relaxed)} : o \in Outcomes(c, cf.s, F, nextgot)}
+
+NextGot(cmds, i) == IF i < Len(cmds) THEN cmds[i + 1].got ELSE 0
 
 RECURSIVE RunFrom(_, _, _, _, _, _, _)
 RunFrom(cfgs, cmds, i, upto, obs, F, relaxed) ==
   IF i > upto \/ cfgs = {} THEN cfgs
-  ELSE RunFrom(UNION {StepCfg(cf, cmds[i], i = Len(cmds), obs, F, relaxed) : cf \in cfgs}, cmds, i + 1, upto, obs, F, relaxed)
+  ELSE RunFrom(UNION {StepCfg(cf, cmds[i], NextGot(cmds, i), obs, F, relaxed) : cf \in cfgs}, cmds, i + 1, upto, obs, F, relaxed)
 
 \* every script runs on a connection of its own
 Start(w) == {[s |-> [w.s EXCEPT !.fresh = TRUE, !.junk = FALSE], pos |-> 1, closed |-> FALSE, ended |-> FALSE, lk |-> w.lk]}
@@ -496,7 +504,7 @@ RECURSIVE PresentFrom(_, _, _, _)
 PresentFrom(s, cmds, i, acc) ==
   IF i > Len(cmds) THEN [s |-> s, sigs |-> acc]
   ELSE LET c  == cmds[i]
-           os == Outcomes(c, s, AllFindings, i = Len(cmds))
+           os == Outcomes(c, s, AllFindings, NextGot(cmds, i))
            o  == CHOOSE x \in os : TRUE
        IN PresentFrom(o.s, cmds, i + 1, acc \cup SigOf(c, s))
 
@@ -578,7 +586,7 @@ Recv(c) ==
   /\ conn[c].stage = "idle" /\ conn[c].todo # <<>> /\ ~conn[c].closed
   /\ LET cmd == Head(conn[c].todo)
          sin == [st EXCEPT !.junk = conn[c].junk, !.fresh = conn[c].fresh] IN
-     \E o \in Outcomes(cmd, sin, FAsIs, Len(conn[c].todo) = 1) :
+     \E o \in Outcomes(cmd, sin, FAsIs, NextGot(conn[c].todo, 1)) :
        /\ o.tok => free > 0
        /\ free' = IF o.tok THEN free - 1 ELSE free
        /\ LET pb == ParserBufs(o) IN
